@@ -367,8 +367,8 @@ func r144(c *Ctx) {
 			}
 		})
 	}
-	if n < 6 {
-		r.Undecide("R14.4", "", "accesses of g.result", "", fmt.Sprintf("%d found (floor 6)", n))
+	if n < 3 {
+		r.Undecide("R14.4", "", "accesses of g.result", "", fmt.Sprintf("%d found (floor 3)", n))
 	}
 }
 
@@ -414,8 +414,8 @@ func r145(c *Ctx) {
 			})
 		}
 	}
-	if n < 2 {
-		r.Undecide("R14.5", "", "newStringSet call sites", "", fmt.Sprintf("%d found (floor 2)", n))
+	if n < 1 {
+		r.Undecide("R14.5", "", "newStringSet call sites", "", fmt.Sprintf("%d found (floor 1)", n))
 	}
 	// no struct field or package variable of that type
 	if t := p.LookupType(core.KetoMod+"/internal/x/graph", "stringSet"); t != nil {
